@@ -235,10 +235,13 @@ class Elf(BinFormat):
             size = S.p_filesz + ELF_PAGEOFFSET(S.p_vaddr)
             off  = S.p_offset - ELF_PAGEOFFSET(S.p_vaddr)
             addr = ELF_PAGESTART(S.p_vaddr)
-            size = ELF_PAGEALIGN(size)
             self.__file.seek(off)
             base = addr
+            # only p_filesz bytes are file-backed, the rest of the segment
+            # (up to p_memsz, then up to the page boundary) reads as zero:
             bytes_ = self.__file.read(size)
+            msize = max(S.p_memsz, S.p_filesz) + ELF_PAGEOFFSET(S.p_vaddr)
+            bytes_ = bytes_.ljust(ELF_PAGEALIGN(msize), b"\0")
             return {base: bytes_}
         else:
             logger.error("segment not a PT_LOAD [%08x/%0d]" % (S.p_vaddr, S.p_align))
